@@ -390,4 +390,121 @@ theorem ejections_batched_eq_sequential (cfg : Config) (cur : Nat) (vals : List 
     have h2 : next cfg cur vals ≤ qmax cfg cur vals + 1 := by unfold next; split <;> omega
     omega
 
+/-! ### activation queue -/
+
+theorem queueLe_trans (vals : List Validator) (a b c : Nat) (h1 : queueLe vals a b = true) (h2 : queueLe vals b c = true) :
+    queueLe vals a c = true := by
+  unfold queueLe at *
+  simp only [Bool.or_eq_true, decide_eq_true_eq, Bool.and_eq_true] at *
+  omega
+
+theorem queueLe_total (vals : List Validator) (a b : Nat) : (queueLe vals a b || queueLe vals b a) = true := by
+  unfold queueLe
+  simp only [Bool.or_eq_true, decide_eq_true_eq, Bool.and_eq_true]
+  omega
+
+theorem queueLe_antisymm (vals : List Validator) (a b : Nat) (h1 : queueLe vals a b = true) (h2 : queueLe vals b a = true) :
+    a = b := by
+  unfold queueLe at *
+  simp only [Bool.or_eq_true, decide_eq_true_eq, Bool.and_eq_true] at *
+  omega
+
+/-- on a sorted list a downward-closed predicate selects a prefix -/
+theorem takeWhile_eq_filter_of_sorted {le : Nat → Nat → Bool} {P : Nat → Bool} (l : List Nat)
+    (hs : l.Pairwise (fun a b => le a b = true)) (hP : ∀ a b, le a b = true → P b = true → P a = true) :
+    l.takeWhile P = l.filter P := by
+  induction l with
+  | nil => simp
+  | cons x xs ih =>
+    rw [List.pairwise_cons] at hs
+    by_cases hx : P x = true
+    · rw [List.takeWhile_cons_of_pos hx, List.filter_cons_of_pos hx, ih hs.2]
+    · rw [List.takeWhile_cons_of_neg hx, List.filter_cons_of_neg hx]
+      symm
+      rw [List.filter_eq_nil_iff]
+      intro y hy hpy
+      exact hx (hP x y (hs.1 y hy) hpy)
+
+theorem take_takeWhile (l : List Nat) (P : Nat → Bool) (n : Nat) :
+    (l.take n).takeWhile P = (l.takeWhile P).take n := by
+  induction l generalizing n with
+  | nil => simp
+  | cons x xs ih =>
+    cases n with
+    | zero => simp
+    | succ n =>
+      by_cases hx : P x = true
+      · simp [List.take_succ_cons, List.takeWhile_cons_of_pos hx, ih]
+      · simp [List.take_succ_cons, List.takeWhile_cons_of_neg hx]
+
+theorem zip_filter_fst' (l : List Validator) (s : Nat) (q : Validator → Bool) :
+    (((List.range' s l.length).zip l).filter (fun x => q x.2)).map (·.1) =
+      (List.range' s l.length).filter (fun i => match l[i - s]? with | some v => q v | none => false) := by
+  induction l generalizing s with
+  | nil => simp
+  | cons x xs ih =>
+    simp only [List.length_cons, List.range'_succ, List.zip_cons_cons, List.filter_cons, Nat.sub_self,
+      List.getElem?_cons_zero]
+    have htail : (List.range' (s + 1) xs.length).filter
+          (fun i => match (x :: xs)[i - s]? with | some v => q v | none => false) =
+        (List.range' (s + 1) xs.length).filter (fun i => match xs[i - (s + 1)]? with | some v => q v | none => false) := by
+      apply List.filter_congr
+      intro i hi
+      have : s + 1 ≤ i := (List.mem_range'_1.mp hi).1
+      have e : i - s = (i - (s + 1)) + 1 := by omega
+      rw [e, List.getElem?_cons_succ]
+    rw [htail, ← ih (s + 1)]
+    split <;> simp
+
+theorem zip_filter_fst (l : List Validator) (q : Validator → Bool) :
+    (((List.range l.length).zip l).filter (fun x => q x.2)).map (·.1) =
+      (List.range l.length).filter (fun i => match l[i]? with | some v => q v | none => false) := by
+  have := zip_filter_fst' l 0 q
+  simpa [List.range_eq_range'] using this
+
+/-- `activation_prefix_eq` (list form): sort the candidates with eligibility `≤ current`, take `limit`, stop at
+the first one above the finalized epoch = filter by `≤ finalized`, sort, take `limit`. -/
+theorem activation_prefix (vals : List Validator) (cur fin limit : Nat) (hfin : fin ≤ cur) :
+    ((((((List.range vals.length).zip vals).filter fun (x : Nat × Validator) =>
+          x.2.activation_epoch == FAR_FUTURE_EPOCH && decide (x.2.activation_eligibility_epoch ≤ cur)).map (·.1)).mergeSort
+        (queueLe vals)).take limit).takeWhile
+        (fun index => decide ((vals.getD index default).activation_eligibility_epoch ≤ fin)) =
+      (activation_queue_pure fin vals).take limit := by
+  rw [zip_filter_fst vals (fun v => v.activation_epoch == FAR_FUTURE_EPOCH && decide (v.activation_eligibility_epoch ≤ cur))]
+  generalize hA : (List.range vals.length).filter (fun i => match vals[i]? with
+      | some v => v.activation_epoch == FAR_FUTURE_EPOCH && decide (v.activation_eligibility_epoch ≤ cur)
+      | none => false) = A
+  let P : Nat → Bool := fun index => decide ((vals.getD index default).activation_eligibility_epoch ≤ fin)
+  have hsorted : (A.mergeSort (queueLe vals)).Pairwise (fun a b => queueLe vals a b = true) :=
+    List.pairwise_mergeSort (queueLe_trans vals) (queueLe_total vals) A
+  have hdown : ∀ a b, queueLe vals a b = true → P b = true → P a = true := by
+    intro a b hab hb
+    simp only [P, decide_eq_true_eq] at *
+    unfold queueLe at hab
+    simp only [Bool.or_eq_true, decide_eq_true_eq, Bool.and_eq_true] at hab
+    omega
+  rw [take_takeWhile, takeWhile_eq_filter_of_sorted _ hsorted hdown]
+  congr 1
+  -- both sides are sorted permutations of the same list
+  unfold activation_queue_pure
+  apply List.Perm.eq_of_pairwise (le := fun a b => queueLe vals a b = true)
+  · intro a b _ _ h1 h2; exact queueLe_antisymm vals a b h1 h2
+  · exact List.Pairwise.filter _ hsorted
+  · exact List.pairwise_mergeSort (queueLe_trans vals) (queueLe_total vals) _
+  · refine List.Perm.trans (List.Perm.filter _ (List.mergeSort_perm A _)) ?_
+    refine List.Perm.trans ?_ (List.mergeSort_perm _ _).symm
+    rw [← hA, List.filter_filter]
+    apply List.Perm.of_eq
+    apply List.filter_congr
+    intro i _
+    cases hv : vals[i]? with
+    | none => simp
+    | some v =>
+      have hg : vals.getD i default = v := by simp [List.getD, hv]
+      simp only [P, hg]
+      by_cases h1 : v.activation_eligibility_epoch ≤ fin
+      · have h3 : v.activation_eligibility_epoch ≤ cur := by omega
+        simp [h1, h3]
+      · simp [h1]
+
 end Zrnt.Proofs.Lemmas
